@@ -13,8 +13,34 @@ RULE = ("as C01, biased to the SAT/UNSAT boundary: small fields only (every rand
         "statements per block so that about half of the calls are unsatisfiable; satisfiability of every rand set is decided by "
         "exhaustive enumeration of the reference semantics in the Lean driver and compared with the outcome in both directions")
 
+def list_witness(ck, tier):
+    """F46: a satisfiable system over a random-size list fails (the size 0 solution is not found because the constraints
+    are imposed on the elements the list is grown by)"""
+    import solvelib as S
+    S.install()
+    import listlib as LL
+    from solvecheck import B, I
+    scn = {"fields": [{"name": "f0", "w": 2, "s": False, "rand": True, "val": 0, "enums": None}],
+           "lists": [{"name": "l0", "w": 3, "s": False, "rand": True, "randsz": True, "init": []}],
+           "blocks": [{"name": "c0", "stmts": [
+               {"k": "expr", "e": {"k": "in", "e": {"k": "size", "l": 0}, "rl": [{"lo": I(0), "hi": I(2)}]}},
+               {"k": "foreach", "l": 0, "it": True, "idx": False, "body": [{"k": "expr", "e": B("gt", {"k": "it"}, I(7))}]}]}],
+           "ops": [{"op": "randomize", "seed": 3}]}
+    recs = LL.run(scn)
+    ck.count("known_finding_witnesses")
+    known = [k for k in ck.known if k["id"] == "F46" and k.get("status") == "known"]
+    if recs[0]["outcome"] == "solveFailure":
+        # the empty list satisfies both statements
+        if known:
+            ck.oracle_fail(known[0]["signature"], scn, {"outcome": "solveFailure", "solution": {"l0": []}}, known[0]["what"])
+        else:
+            ck.oracle_fail("F46:witness-fails-but-not-listed", scn, "solveFailure", "listed in known_findings.json")
+    elif recs[0]["outcome"] != "ok":
+        ck.oracle_fail("internal-exception:" + str(recs[0]["exc"])[:80], scn, recs[0]["exc"], "SolveFailure or normal return")
+
+
 if __name__ == "__main__":
     common.run_main(lambda: solvecheck.standard_main(
         "C02", ["C02"], THEOREMS, PROFILE, 300, 12000,
         ["as C01; exhaustive satisfiability is computed for rand sets with at most 13 random bits (count in coverage.counts.enumerated)"],
-        RULE))
+        RULE, extra=list_witness))
